@@ -35,8 +35,12 @@ on `Model/CacheGlue.lean` (`cfgReal`):
              an optional fifth field lists the configured repositories (`0`, `0+1`; absent = `0`): repository `r` has
              index URL and entry directory `50·r`; repository 1 (`https://repob.test`) serves ONE index revision (body and
              ETag 200) that offers a newer `app`, so an image built over `0+1` is named `ok:<rev>b:…`
-* `opts`     (optional seventh field) `noetag`: the server sends no ETag for the index of repository 0 (only
-             `Last-Modified`): nothing is looked up or stored for it (`fetchNoEtag`)
+* `opts`     (optional seventh field, `,`-separated) `noetag`: the server sends no ETag for the index of repository 0
+             (only `Last-Modified`): nothing is looked up or stored for it (`fetchNoEtag`); `vers=a.b.c/a.b.c/…`: the
+             versions of base, lib, app in revision 0, 1, … of repository 0 (repository 1's app is version 1000): an
+             offline build also needs every PACKAGE of its image in the cache — put there by an earlier online build
+             through the cache that installed that very package (an online build over `0+1` installs repository 1's
+             app and never downloads repository 0's)
 * `goDir`, `goOutcomes`, `goCwd`  the etag entries and temp files the real code left (tokens `E<dir>.<etag>=L<body>`,
              `T<dir>=<body|P>`), the outcome of every build (`ok:<rev>:<k>=<content>+…`, keys by number, or `err`),
              and whatever appeared in the working directories of the processes (must be nothing)
@@ -344,6 +348,25 @@ structure GSim where
   st : St := {}
   nextCache : Nat := 1
   outs : List String := []
+  pkgs : List (Nat × Nat) := []   -- the packages (number, version) earlier online builds left in the cache
+
+def parseVers (opts : String) : List (List Nat) :=
+  match (opts.splitOn ",").find? (·.startsWith "vers=") with
+  | some v => ((v.drop 5).toString.splitOn "/").map fun t => (t.splitOn ".").map String.toNat!
+  | none => []
+
+/-- the packages of the image over index revision `rev` of repository 0, with or without repository 1 (no version
+table: nothing is said about packages) -/
+def imagePkgs (vers : List (List Nat)) (idx : Option (List (Url × Body))) : List (Nat × Nat) :=
+  match idx with
+  | none => []
+  | some l =>
+    match l.find? (·.1 = 0) with
+    | none => []
+    | some (_, ib) =>
+      match vers[ib - 100]? with
+      | some [v0, v1, v2] => [(0, v0), (1, v1), (2, if l.any (·.1 = repoUrl 1) then 1000 else v2)]
+      | _ => []
 
 /-- the index requests of one online build, one repository after the other (distinct URLs, distinct entry
 directories): `none` when one of them fails -/
@@ -361,7 +384,7 @@ def onlineIndexes (cfg : Cfg) (noetag : Bool) (c : CacheId) (memo : Bool) (cache
           | some b, some l => some ((u, b) :: l)
           | _, _ => none)
 
-def runBuild (cfg : Cfg) (world : List GKey) (noetag : Bool) (sim : GSim) (b : GBuild) : GSim :=
+def runBuild (cfg : Cfg) (world : List GKey) (noetag : Bool) (vers : List (List Nat)) (sim : GSim) (b : GBuild) : GSim :=
   -- the repository serves revision `rev` during this build
   let st := if sim.st.cur 0 = some (100 + b.rev, 100 + b.rev) then sim.st
             else step cfg sim.st (.publish 0 (100 + b.rev) (100 + b.rev))
@@ -374,19 +397,24 @@ def runBuild (cfg : Cfg) (world : List GKey) (noetag : Bool) (sim : GSim) (b : G
     let kres := b.keys.map fun k => fetchOffline cfg st (k + 1)
     -- every configured repository is remote (https)
     let idx := offlineIndexes skipReal cfg st (fun _ => true) (fun _ => .notExist) (b.repos.map repoUrl)
-    let out := if schedDependent world b then "sched" else outcomeOfIdx b.keys kres idx
+    let o := outcomeOfIdx b.keys kres idx
+    -- (the resolution succeeded; every package of the image must be in the cache as well)
+    let o := if o != "err" && !(imagePkgs vers idx).all sim.pkgs.contains then "err" else o
+    let out := if schedDependent world b then "sched" else o
     { sim with st := st, outs := sim.outs ++ [out] }
   else
     let (c, memo, next) := if b.mode == "default" then (0, false, sim.nextCache) else (sim.nextCache, true, sim.nextCache + 1)
     let (st1, kres) := fetchAll cfg c memo (b.keys.map fun k => (k + 1, cutOf k)) st
     -- the keyring is initialised first (all entries are requested, concurrently); the indexes only after that
-    if kres.any (·.isNone) then { st := st1, nextCache := next, outs := sim.outs ++ ["err"] }
+    if kres.any (·.isNone) then { sim with st := st1, nextCache := next, outs := sim.outs ++ ["err"] }
     else
       let r := onlineIndexes cfg noetag c memo true (b.fault == "i") b.repos st1
-      { st := r.1, nextCache := next, outs := sim.outs ++ [outcomeOfIdx b.keys kres r.2] }
+      let o := outcomeOfIdx b.keys kres r.2
+      { st := r.1, nextCache := next, outs := sim.outs ++ [o],
+        pkgs := if o != "err" then sim.pkgs ++ imagePkgs vers r.2 else sim.pkgs }
 
-def runProc (cfg : Cfg) (world : List GKey) (noetag : Bool) (sim : GSim) (p : List GBuild) : GSim :=
-  let sim := p.foldl (runBuild cfg world noetag) sim
+def runProc (cfg : Cfg) (world : List GKey) (noetag : Bool) (vers : List (List Nat)) (sim : GSim) (p : List GBuild) : GSim :=
+  let sim := p.foldl (runBuild cfg world noetag vers) sim
   { sim with st := step cfg sim.st .exit }
 
 def dirTokens (st : St) : List String :=
@@ -452,7 +480,7 @@ def handle (keys history goDir goOutcomes goCwd : String) (opts : String := "") 
   let procs := parseHistory history
   let noetag := (opts.splitOn ",").contains "noetag"
   let cfg := cfgReal (dirOfWorld world)
-  let sim := procs.foldl (runProc cfg world noetag) { st := initial cfg world }
+  let sim := procs.foldl (runProc cfg world noetag (parseVers opts)) { st := initial cfg world }
   let toks := (dirTokens sim.st).mergeSort (fun a b => decide (a ≤ b))
   let impl := ",".intercalate toks ++ "|" ++ ",".intercalate sim.outs
   let gtoks := if goDir.isEmpty then [] else goDir.splitOn ","
